@@ -578,7 +578,7 @@ def units(tier: str, seed: int) -> list[Unit]:
     for si, spec in enumerate(lifecycle_specs(tier)):
         for entry in ("runner", "run_app"):
             us.append(Unit(f"life-{si}-{entry}", unit_lifecycle, {"spec": spec, "entry": entry, "maxfaults": mf}))
-    n = 250 if tier == "quick" else 30000
+    n = 900 if tier == "quick" else 30000
     for i in range(6 if tier == "quick" else 12):
         us.append(Unit(f"shutdown{i}", unit_shutdown, {"n": n, "offset": i}))
     return us
